@@ -136,7 +136,9 @@ func HIncludeGraph() {
 		vFile(vPath("/vfs/p/"+string(nm)), content)
 	}
 	rootData := []byte{'I', 'N', 'C', 'L', 'U', 'D', 'E', ' ', r0, '\n', 'I', 'N', 'C', 'L', 'U', 'D', 'E', ' ', r1, '\n'}
-	f := fs.NewFile(vPath("/vfs/p/root.jst"), rootData)
+	// the root path as the caller spelled it: clean or not (the spelling must not matter)
+	rootName := []string{"/vfs/p/root.jst", "/vfs/p/./root.jst", "/vfs/p/d/../root.jst", "/vfs/p//root.jst"}[vInt("rootSpelling", 0, 3)]
+	f := fs.NewFile(vPath(rootName), rootData)
 	c := NewJApiCore(f)
 	je := c.scanProject()
 
